@@ -16,18 +16,19 @@ CFG = """CONSTANTS
   MAXDEPTH = {d}
   VIOLATING = {v}
   CORE = {core}
+  EXTENDED = {ext}
 SPECIFICATION Spec
 CHECK_DEADLOCK FALSE
 INVARIANT Emit
 """
 
 
-def programs(tmp: Path, n=2, depth=2, violating=True, simulate=None, seed=0, timeout=1800, core=False):
+def programs(tmp: Path, n=2, depth=2, violating=True, simulate=None, seed=0, timeout=1800, core=False, extended=False):
     """Returns (records [{code, violations, degenerate}], TLCResult)."""
     tf = tmp / "types.json"
     dump_json(tf, library())
-    cfg = tmp / f"sg_{n}_{depth}_{int(violating)}_{int(core)}.cfg"
-    cfg.write_text(CFG.format(n=n, d=depth, v="TRUE" if violating else "FALSE", core="TRUE" if core else "FALSE"))
+    cfg = tmp / f"sg_{n}_{depth}_{int(violating)}_{int(core)}_{int(extended)}.cfg"
+    cfg.write_text(CFG.format(n=n, d=depth, v="TRUE" if violating else "FALSE", core="TRUE" if core else "FALSE", ext="TRUE" if extended else "FALSE"))
     kw = {}
     if simulate:
         kw = {"simulate": f"num={simulate}", "depth": 40, "extra": ["-seed", str(seed)]}
